@@ -197,7 +197,7 @@ def r10_1(ctx):
         for nd in gd.stmt_nodes():
             if nd.kind == "stmt" and isinstance(nd.stmt, ast.Assign) and len(nd.stmt.targets) == 1 and is_attr_of(nd.stmt.targets[0], "sys") and nd.stmt.targets[0].attr in replaced:
                 slot = restored.get(nd.stmt.targets[0].attr)
-                facts = [(norm(t_), v_) for t_, v_ in gd.branch_facts(nd.id)]
+                facts = [(norm(_inl101(t_, sd_dis)), v_) for t_, v_ in gd.branch_facts(nd.id)]
                 good = {(f"self.{slot}", True), (f"self.{slot} is not None", True), (f"self.{slot} is None", False), (f"not self.{slot}", False)}
                 bad_f = [(t_, v_) for t_, v_ in facts if (t_, v_) not in good]
                 ctx.check(not bad_f, dis.fq, short(nd.stmt), f"{dis.module.relpath}:{nd.lineno}", f"`{short(nd.stmt)}` runs whenever self.{slot} holds a saved stream",
